@@ -7,7 +7,7 @@ import pandas as pd
 
 import pylife.mesh.hotspot as HS
 
-from ..sym import sym_and, sym_or, sym_not, SymReal
+from ..sym import sym_and, sym_or, sym_not, SymReal, Unsupported
 from ..util import eq_struct, mutated
 from .. import npfacade
 import warnings
@@ -16,18 +16,22 @@ import z3
 
 PROPERTY = "C19"
 ENCODED = ["pylife.mesh.hotspot:HotSpot.calc", "pylife.mesh.hotspot:HotSpot._HotSpot__hs_sel",
+           "pylife.mesh.gradient:Gradient.gradient_of", "pylife.mesh.gradient:Gradient._find_neighbor", "pylife.mesh.gradient:Gradient._calc_lst_sqr",
            "pylife.mesh.gradient:Gradient3D.gradient_of", "pylife.mesh.gradient:Gradient3D._compute_gradient",
            "pylife.mesh.gradient:Gradient3D._compute_gradient_simplex", "pylife.mesh.gradient:Gradient3D._compute_gradient_simplex_single_node",
            "pylife.mesh.gradient:Gradient3D._compute_gradient_hexahedral", "pylife.mesh.gradient:Gradient3D._compute_gradient_hexahedral_single_node",
            "pylife.mesh.gradient:Gradient3D._initialize_ansatz_function_derivative_hexahedral",
            "pylife.mesh.gradient:Gradient3D._initialize_ansatz_function_derivative_simplex"]
-STUBS = ["numpy.linalg.inv of a 3x3 matrix by its contract adj(J)/det(J) (LinAlgError for an exactly singular matrix) in the symbolic run",
+STUBS = ["numpy.linalg.lstsq(A, b) for a concrete matrix A and a symbolic right-hand side by its contract x = (A^T A)^-1 A^T b in exact "
+         "rational arithmetic (full column rank; zero columns get 0); np.zeros without dtype -> object array, np.nditer(external_loop, "
+         "order='F') over an object array -> its columns; SeriesGroupBy.mean object fall-back (symbolic run only)",
+         "numpy.linalg.inv of a 3x3 matrix by its contract adj(J)/det(J) (LinAlgError for an exactly singular matrix) in the symbolic run",
          "DataFrame.__setitem__(name, float) on a frame with symbolic columns creates an object column (so that it can take symbolic results)"]
 ASSUMPTIONS = ["field values are symbolic (any sign) and pairwise distinct (distinct peaks; ties in the numbering are not specified)",
                "meshes are concrete and enumerated (2-3 elements, shared nodes / disconnected / chains, id gaps, shuffled rows)",
                "oracle: union-find components of the entries >= fraction * maximum under shared-node / shared-element "
                "adjacency, numbered by descending peak"]
-OUTSIDE = ("the least-squares gradient operator `Gradient` (LAPACK lstsq, nditer over float64 buffers), mesh mapping (scipy griddata / Qhull), surface detection (arccos, arcsin): "
+OUTSIDE = ("symbolic node positions for the least-squares operator and for more than one hexahedron; mesh mapping (scipy griddata / Qhull), surface detection (arccos, arcsin): "
            "no encoding; meshes larger than the enumerated ones")
 RULE = ("one evaluation = one explored path (order type of the field values relative to each other and to the threshold); "
         "distinct = distinct (mesh, fraction, label vector); non-trivial = at least two entries above the threshold")
@@ -42,6 +46,15 @@ MESHES = {
 }
 
 
+LSQ_MESHES = {
+    # two tetrahedra sharing a face; node ids 1..5 in order, 1..5 permuted, with gaps, with gaps and unordered
+    "ids_1_to_n": [(1, [1, 2, 3, 4]), (2, [2, 3, 4, 5])],
+    "ids_permuted": [(1, [3, 1, 5, 2]), (2, [1, 5, 2, 4])],
+    "ids_with_gaps": [(9, [10, 20, 30, 40]), (3, [20, 30, 40, 50])],
+    "ids_gaps_unordered": [(9, [40, 7, 12, 3]), (3, [7, 12, 3, 25])],
+}
+
+
 TET2_XYZ = [(0, 0, 0), (1, 0, 0.25), (0, 1, 0), (0.25, 0, 1), (1, 1, 1.5)]
 HEX_XYZ = [(0, 0, 0), (2, 0, 0.25), (2, 1, 0), (0, 1, 0.5), (0, 0.25, 1), (2, 0, 1), (2.5, 1, 1.5), (0, 1, 1)]
 
@@ -52,7 +65,8 @@ def bounds(tier):
             "gradient": ("linear field with symbolic gradient and offset; one tetrahedron with symbolic node positions (12 symbols); two tetrahedra "
                          "sharing a face and one hexahedron (right- and left-handed node order) with " +
                          ("concrete perturbed positions" if tier == "quick" else "concrete and with fully symbolic positions (15 / 24 symbols)") +
-                         "; node and element ids with gaps and in any order, rows of different elements interleaved")}
+                         "; node and element ids with gaps and in any order, rows of different elements interleaved; least-squares operator: two tetrahedra "
+                         "with concrete positions, ids 1..N in order / permuted / with gaps / with gaps and unordered")}
 
 
 def cases(tier):
@@ -64,6 +78,8 @@ def cases(tier):
     out.append({"kind": "gradient3d", "mesh": "tet_two_shared_face", "coords": TET2_XYZ, "row_order": "interleaved", "_weight": 5})
     out.append({"kind": "gradient3d", "mesh": "hex_one", "coords": HEX_XYZ, "_weight": 5})
     out.append({"kind": "gradient3d", "mesh": "hex_one", "coords": [(-x, y, z) for x, y, z in HEX_XYZ], "_weight": 5})   # left-handed node order
+    for name in LSQ_MESHES:
+        out.append({"kind": "gradient_lsq", "mesh": name, "_weight": 3})
     if not q:
         out.append({"kind": "gradient3d", "mesh": "tet_two_shared_face", "coords": "symbolic", "row_order": "interleaved", "_weight": 50})
         out.append({"kind": "gradient3d", "mesh": "hex_one", "coords": "symbolic", "_weight": 200})
@@ -92,6 +108,9 @@ def _apply_canary(ctx):
         import pylife.mesh.gradient as GR
         ctx.patch(GR.Gradient3D, "_initialize_ansatz_function_derivative_hexahedral",
                   mutated(GR.Gradient3D._initialize_ansatz_function_derivative_hexahedral, "ay = a in [2,3,6,7]", "ay = a in [2,3,5,7]"))
+    elif cn == "lsq_wrong_column":
+        import pylife.mesh.gradient as GR
+        ctx.patch(GR.Gradient, "_calc_lst_sqr", mutated(GR.Gradient._calc_lst_sqr, "np.linalg.lstsq(diff[:, :3], diff[:, 3], rcond=None)", "np.linalg.lstsq(diff[:, :3], diff[:, 2], rcond=None)"))
     elif cn is not None:
         raise RuntimeError("unknown canary " + cn)
 
@@ -102,8 +121,9 @@ CANARIES = [
     {"name": "numbering_from_zero", "cases": [{"mesh": "disconnected", "frac": 0.5}]},
     {"name": "tet_jacobian_entry", "cases": [{"kind": "gradient3d", "mesh": "tet_one", "coords": "symbolic"}]},
     {"name": "hex_ansatz_node_set", "cases": [{"kind": "gradient3d", "mesh": "hex_one", "coords": HEX_XYZ}]},
+    {"name": "lsq_wrong_column", "cases": [{"kind": "gradient_lsq", "mesh": "ids_permuted"}]},
 ]
-QUICK_CANARIES = 5
+QUICK_CANARIES = 6
 
 
 def _oracle(entries, vals, above):
@@ -181,10 +201,61 @@ class _Linalg:
         return out
 
 
+def _frac(v):
+    return v if isinstance(v, Fraction) else Fraction(float(v))
+
+
+def _lstsq_exact(A, b):
+    """least-squares solution of A x = b for a concrete matrix A of full column rank (all-zero columns get the minimum-norm
+    component 0) and a symbolic right-hand side: x = (A^T A)^-1 A^T b in exact rational arithmetic"""
+    A = [[_frac(v) for v in row] for row in np.asarray(A, dtype=object)]
+    b = list(np.asarray(b, dtype=object))
+    ncol = len(A[0])
+    keep = [j for j in range(ncol) if any(row[j] != 0 for row in A)]
+    k = len(keep)
+    N = [[sum(row[keep[i]] * row[keep[j]] for row in A) for j in range(k)] for i in range(k)]
+    # Gauss-Jordan inverse of the normal matrix
+    M = [list(N[i]) + [Fraction(int(i == j)) for j in range(k)] for i in range(k)]
+    for c in range(k):
+        piv = next((r for r in range(c, k) if M[r][c] != 0), None)
+        if piv is None:
+            raise Unsupported("lstsq stub: rank-deficient matrix (other than zero columns)")
+        M[c], M[piv] = M[piv], M[c]
+        pv = M[c][c]
+        M[c] = [v / pv for v in M[c]]
+        for r in range(k):
+            if r != c and M[r][c] != 0:
+                f = M[r][c]
+                M[r] = [a - f * bb for a, bb in zip(M[r], M[c])]
+    Ninv = [row[k:] for row in M]
+    P = [[sum(Ninv[i][l] * A[r][keep[l]] for l in range(k)) for r in range(len(A))] for i in range(k)]     # (A^T A)^-1 A^T
+    x = [0.0] * ncol
+    for i in range(k):
+        acc = 0
+        for r in range(len(A)):
+            if P[i][r] != 0:
+                acc = acc + SymReal(z3.RealVal(str(P[i][r]))) * b[r]
+        x[keep[i]] = acc
+    return np.array(x, dtype=object), None, k, None
+
+
 class _GradFacade(npfacade.NPFacade):
     def __init__(self):
         super().__init__()
         self.linalg = _Linalg()
+        self.linalg.lstsq = lambda A, b, rcond=None: _lstsq_exact(A, b)
+
+    def zeros(self, shape, dtype=None, order="C"):
+        if dtype is None:
+            z = np.empty(shape, dtype=object, order=order)      # may receive symbolic values later
+            z[...] = 0.0
+            return z
+        return np.zeros(shape, dtype=dtype, order=order)
+
+    def nditer(self, a, flags=(), order="K", **kw):
+        if isinstance(a, np.ndarray) and a.dtype == object and "external_loop" in flags and order == "F" and a.ndim == 2:
+            return iter([a[:, j] for j in range(a.shape[1])])      # one column per step (object arrays need REFS_OK in numpy)
+        return np.nditer(a, flags=list(flags), order=order, **kw)
 
 
 def _object_columns(orig):
@@ -275,10 +346,66 @@ def _run_gradient3d(ctx, case):
     return obs
 
 
+def _mean_fallback(orig):
+    def mean(self, *a, **kw):
+        ser = self.obj
+        if ser.dtype != object:
+            return orig(self, *a, **kw)
+        # object column (symbolic values): the mean per group by Python arithmetic, groups in sorted key order as pandas does
+        keys, vals = [], []
+        for key, idx in sorted(self.indices.items()):
+            tot = 0
+            for i in idx:
+                tot = ser.iloc[i] + tot
+            keys.append(key)
+            vals.append(tot / len(idx))
+        return pd.Series(np.array(vals, dtype=object), index=pd.Index(keys, name=self.keys if isinstance(self.keys, str) else None), name=ser.name)
+    return mean
+
+
+def _run_gradient_lsq(ctx, case):
+    """least-squares plane operator `Gradient`: exact on a linear field, for any numbering"""
+    import pylife.mesh.gradient as GR
+    from pandas.core.groupby.generic import SeriesGroupBy
+    layout = LSQ_MESHES[case["mesh"]]
+    if ctx.sym:
+        ctx.patch(GR, "np", _GradFacade())
+        ctx.patch(SeriesGroupBy, "mean", _mean_fallback(SeriesGroupBy.mean))
+    nodes = []
+    for _e, ns in layout:
+        for nid in ns:
+            if nid not in nodes:
+                nodes.append(nid)
+    coords = {nid: tuple(float(v) for v in TET2_XYZ[k]) for k, nid in enumerate(nodes)}
+    g = [ctx.real(n) for n in ("gx", "gy", "gz")]
+    f0 = ctx.real("f0")
+    ctx.hint(sym_and(*[sym_and(v <= 4, v >= -4) for v in g + [f0]]))
+    field = {nid: g[0] * coords[nid][0] + g[1] * coords[nid][1] + g[2] * coords[nid][2] + f0 for nid in nodes}
+    rows = [(nid, e) for e, ns in layout for nid in ns]
+    dt = object if ctx.sym else np.float64
+    df = pd.DataFrame({"x": [coords[n][0] for n, _ in rows], "y": [coords[n][1] for n, _ in rows], "z": [coords[n][2] for n, _ in rows],
+                       "f": np.array([field[n] for n, _ in rows], dtype=dt)},
+                      index=pd.MultiIndex.from_tuples(rows, names=["node_id", "element_id"]))
+    with warnings.catch_warnings():
+        warnings.simplefilter("ignore")
+        grad = df.gradient.gradient_of("f")
+    ctx.signature(("gradient_lsq", case["mesh"]))
+    ctx.claim(sorted(grad.index) == sorted(nodes) and list(grad.columns) == ["df_dx", "df_dy", "df_dz"], "gradient.index",
+              (list(grad.index), list(grad.columns)))
+    obs = {}
+    for nid in nodes:
+        got = [grad.loc[nid, c] for c in ("df_dx", "df_dy", "df_dz")]
+        ctx.claim(eq_struct(got, g) if ctx.sym else ctx.close(got, g, 1e-9), "gradient.linear_exact", (nid, got, g))
+        obs["n%d" % nid] = got
+    return obs
+
+
 def run(ctx, case):
     _apply_canary(ctx)
     if case.get("kind") == "gradient3d":
         return _run_gradient3d(ctx, case)
+    if case.get("kind") == "gradient_lsq":
+        return _run_gradient_lsq(ctx, case)
     entries = MESHES[case["mesh"]]
     frac = case["frac"]
     n = len(entries)
